@@ -36,3 +36,12 @@ CASES += [
          old="   case DuplicatePolicy::exception:  return new DuplicatePolicyException;\n   case DuplicatePolicy::replace:    return new DuplicatePolicyReplace;",
          new="   case DuplicatePolicy::exception:  return new DuplicatePolicyReplace;\n   case DuplicatePolicy::replace:    return new DuplicatePolicyException;"),
 ]
+
+CASES += [
+    dict(id='c14-class-filter-inverted', prop='C14', file='src/celma/log/filter/detail/log_filter_classes.hpp', expect='R8',
+         old="   return mClassSelection[ static_cast< size_t>( msg.getClass())];", new="   return !mClassSelection[ static_cast< size_t>( msg.getClass())];"),
+    dict(id='c14-class-filter-offset', prop='C14', file='src/library/log/filter/detail/log_filter_classes.cpp', expect='R8',
+         old="      mClassSelection.set( static_cast< size_t>( log_class));", new="      mClassSelection.set( static_cast< size_t>( log_class) - 1);"),
+    dict(id='c14-eq-class-filter-test', prop='C14', file='src/celma/log/filter/detail/log_filter_classes.hpp', expect=None,
+         old="   return mClassSelection[ static_cast< size_t>( msg.getClass())];", new="   return mClassSelection.test( static_cast< size_t>( msg.getClass()));"),
+]
